@@ -35,7 +35,11 @@ type Input struct {
 	Head     *HeadIn      `json:"head,omitempty"`
 	ErrBody  *ErrBodyIn   `json:"errbody,omitempty"`
 	Dynamic  *DynamicIn   `json:"dynamic,omitempty"`
-	Tags     []string     `json:"tags,omitempty"`
+	// sessions (p9_sessions_test.go): one service instance, several operations, scripted providers
+	HeadSeq    *HeadSeqIn    `json:"headseq,omitempty"`
+	DynamicSeq *DynamicSeqIn `json:"dynamicseq,omitempty"`
+	ProposeSeq *ProposeSeqIn `json:"proposeseq,omitempty"`
+	Tags       []string      `json:"tags,omitempty"`
 }
 
 // Observed is the JSON rendering of what the implementation did (for samples and replays).
@@ -124,6 +128,12 @@ func runInput(t *testing.T, in Input) result {
 		return runErrBody(t, in.ErrBody)
 	case "dynamic":
 		return runDynamic(t, in.Dynamic)
+	case "headseq":
+		return runHeadSeq(t, in.HeadSeq)
+	case "dynamicseq":
+		return runDynamicSeq(t, in.DynamicSeq)
+	case "proposeseq":
+		return runProposeSeq(t, in.ProposeSeq)
 	}
 	t.Fatalf("unknown path %q", in.Path)
 	return result{}
@@ -132,6 +142,9 @@ func runInput(t *testing.T, in Input) result {
 func genInput(r *Rand, k int) Input {
 	switch k % 8 {
 	case 0:
+		if (k/8)%4 == 3 {
+			return Input{Path: "proposeseq", ProposeSeq: genProposeSeq(r)}
+		}
 		return Input{Path: "propose", Propose: genPropose(r)}
 	case 1:
 		return Input{Path: "relays", Relays: genRelays(r)}
@@ -142,10 +155,17 @@ func genInput(r *Rand, k int) Input {
 	case 4:
 		return Input{Path: "duties", Duties: genDuties(r)}
 	case 5:
+		// two of three: a session of the same service over scripted block answers
+		if (k/8)%3 != 0 {
+			return Input{Path: "headseq", HeadSeq: genHeadSeq(r)}
+		}
 		return Input{Path: "head", Head: genHead(r)}
 	case 6:
 		return Input{Path: "errbody", ErrBody: genErrBody(r)}
 	default:
+		if (k/8)%2 != 0 {
+			return Input{Path: "dynamicseq", DynamicSeq: genDynamicSeq(r)}
+		}
 		return Input{Path: "dynamic", Dynamic: genDynamic(r)}
 	}
 }
@@ -153,9 +173,10 @@ func genInput(r *Rand, k int) Input {
 func TestC16(t *testing.T) {
 	setup()
 	col := NewCollector("C16", "Check.C16",
-		"one case = one input of one of eight paths (propose, relays, graffiti, config, duties, head, errbody, dynamic), run on the real code with recover(); "+
+		"one case = one input of one of eight paths (propose, relays, graffiti, config, duties, head, errbody, dynamic) or one session of one service over providers scripted call by call (headseq, dynamicseq, proposeseq), run on the real code with recover(); "+
 			"non-trivial = the input carries the unexpected content of its path (blinded without auction result, unusable relay, {{CLIENT}} template, null/malformed config entry, "+
-			"duplicate/oversize/out-of-range duty, nil-bearing or unknown-version block, null/real failure entry, blank/CRLF/empty/missing file); distinct by input text")
+			"duplicate/oversize/out-of-range duty, nil-bearing or unknown-version block, null/real failure entry, blank/CRLF/empty/missing file; "+
+			"for the sessions headseq and dynamicseq: a script whose answers differ from call to call, fail, or carry nothing); distinct by input text")
 	n := EnvInt("VERIF_N", 1600)
 	var ins []Input
 	for _, in := range LoadInputs[Input]("C16") {
